@@ -408,6 +408,7 @@ func (e *Engine) vspecCall(st *State, fr *Frame, name string, args []Val) ([]Out
 					inst := Implies(f.QF, subst(f.Body, f.BV.Leaf, Sub(rd.abs, f.Shift)))
 					if k := inst.String(); !done[k] {
 						done[k] = true
+						auxTerms.Store(inst, true)
 						st.root.pc = append(st.root.pc, inst)
 					}
 				}
@@ -527,8 +528,8 @@ func (e *Engine) installUnfold(st *State) {
 	validHook = func(c *Term) bool { return e.valid(st, c) }
 	unfoldHook = func(p Piece) ([]alt, bool) {
 		fn, ok := p.Fn.(*ssa.Function)
-		if !ok || fn == nil {
-			return nil, false
+		if !ok || fn == nil || e.opaque[fn.Name()] {
+			return nil, false // opaque specification functions are never unfolded: equal arguments or nothing
 		}
 		base := st.clone()
 		n0 := len(base.pc)
